@@ -229,6 +229,7 @@ static hawk_nde_t* parse_multiplicative (hawk_t* hawk, const hawk_loc_t* xloc);
 
 static hawk_nde_t* parse_unary (hawk_t* hawk, const hawk_loc_t* xloc);
 static hawk_nde_t* parse_exponent (hawk_t* hawk, const hawk_loc_t* xloc);
+static hawk_nde_t* parse_exponent_withdc (hawk_t* hawk, const hawk_loc_t* xloc);
 static hawk_nde_t* parse_unary_exp (hawk_t* hawk, const hawk_loc_t* xloc);
 static hawk_nde_t* parse_increment (hawk_t* hawk, const hawk_loc_t* xloc);
 static hawk_nde_t* parse_primary (hawk_t* hawk, const hawk_loc_t* xloc);
@@ -3975,7 +3976,9 @@ static hawk_nde_t* parse_binary (
 		while (skipnl && MATCH(hawk,TOK_NEWLINE));
 
 		rloc = hawk->tok.loc;
-		right = next_level_func (hawk, &rloc);
+		/* the exponentiation operator is right-associative.
+		 * a ** b ** c is a ** (b ** c) */
+		right = (opcode == HAWK_BINOP_EXP)? parse_exponent_withdc(hawk, &rloc): next_level_func(hawk, &rloc);
 		if (right == HAWK_NULL) goto oops;
 
 		fold = fold_constants_for_binop (hawk, left, right, opcode, &folded);
@@ -4453,6 +4456,27 @@ static hawk_nde_t* parse_exponent (hawk_t* hawk, const hawk_loc_t* xloc)
 	};
 
 	return parse_binary (hawk, xloc, 0, map, parse_unary_exp);
+}
+
+static hawk_nde_t* parse_exponent_withdc (hawk_t* hawk, const hawk_loc_t* xloc)
+{
+	hawk_nde_t* nde;
+
+	/* perform depth check before parsing the right operand of an
+	 * exponentiation, which is another exponentiation - a ** b ** c ** ... */
+
+	if (hawk->opt.depth.s.expr_parse > 0 &&
+	    hawk->parse.depth.expr >= hawk->opt.depth.s.expr_parse)
+	{
+		hawk_seterrnum (hawk, xloc, HAWK_EEXPRNST);
+		return HAWK_NULL;
+	}
+
+	hawk->parse.depth.expr++;
+	nde = parse_exponent(hawk, xloc);
+	hawk->parse.depth.expr--;
+
+	return nde;
 }
 
 static hawk_nde_t* parse_unary_exp (hawk_t* hawk, const hawk_loc_t* xloc)
